@@ -13,10 +13,12 @@ func NewUnboundedRing[T any](ctx context.Context) *UnboundedRing[T] {
 		ctx:  ctx,
 		ring: buffer.NewRing[T](1024),
 		ch:   make(chan T, 1024),
+		done: make(chan struct{}),
 	}
 	r.cond = sync.NewCond(&r.rw)
 
 	go r.run()
+	go r.watch()
 	return r
 }
 
@@ -27,6 +29,7 @@ type UnboundedRing[T any] struct {
 	rw     sync.RWMutex
 	cond   *sync.Cond
 	ch     chan T
+	done   chan struct{} // run 退出时关闭
 	closed bool
 }
 
@@ -68,27 +71,32 @@ func (r *UnboundedRing[T]) IsClosed() bool {
 	return r.closed
 }
 
+// watch 在上下文取消时关闭缓冲区：已接受的数据仍会被投递，随后通道关闭；run 退出后 watch 也随之退出
+func (r *UnboundedRing[T]) watch() {
+	select {
+	case <-r.ctx.Done():
+		r.Close()
+	case <-r.done:
+	}
+}
+
 func (r *UnboundedRing[T]) run() {
+	defer close(r.done)
 	for {
-		select {
-		case <-r.ctx.Done():
-			r.Close()
-		default:
-			r.rw.Lock()
-			if r.ring.IsEmpty() {
-				if r.closed { // 如果已关闭并且没有数据，则关闭通道
-					close(r.ch)
-					r.rw.Unlock()
-					return
-				}
-				// 等待数据
-				r.cond.Wait()
+		r.rw.Lock()
+		if r.ring.IsEmpty() {
+			if r.closed { // 如果已关闭并且没有数据，则关闭通道
+				close(r.ch)
+				r.rw.Unlock()
+				return
 			}
-			vs := r.ring.ReadAll()
-			r.rw.Unlock()
-			for _, v := range vs {
-				r.ch <- v
-			}
+			// 等待数据
+			r.cond.Wait()
+		}
+		vs := r.ring.ReadAll()
+		r.rw.Unlock()
+		for _, v := range vs {
+			r.ch <- v
 		}
 	}
 }
